@@ -315,8 +315,102 @@ def check_builtins(ctx, FB):
             if err or s2 != len(body):
                 ctx.violate("builtin.siblings", key + "|size", f"monster_move_spline_size() = {s2 if not err else err} for {n} points that are written as {len(body)} bytes", sz["file"], sz["line"])
                 break
-    ctx.rule("builtin.siblings", n_types, floor=9, note=f"hand-written mask / conditional built-ins: decode -> encode identity and size() over {cases} mask patterns / cases")
+    t2, c2 = check_sentinel_arrays(ctx, FB)
+    n_types += t2
+    cases += c2
+    ctx.rule("builtin.siblings", n_types, floor=11, note=f"hand-written mask / conditional built-ins: decode -> encode identity and size() over {cases} mask patterns / cases")
     return cases
+
+
+W = "crate::util::functions::wrath::"
+
+
+def _opaque_datetime():
+    """DateTime is decided by C15; here its conversion pair is an opaque inverse pair"""
+    return {"DateTime as std::convert::TryFrom<u32>>::try_from": lambda a: ("Ok", ("dt", a[0])), "DateTime::as_int": lambda a: a[0][1]}
+
+
+def _mk(FB, overrides):
+    m = Mini(FB, "wow_world_messages")
+    m.overrides = overrides
+    return m
+
+
+def _sentinel_body(kind, n, c):
+    body, per = [], []
+    for i in range(n):
+        if kind == "done":
+            e = [i + 1, 0, 0, 0] + c.toks(4)
+        else:  # achievement, 2 packed guids (mask + non-zero bytes), bool32, DateTime, 2 x u32
+            e = [i + 1, 0, 0, 0] + [0x01] + c.toks(1, "nz") + [0x05] + c.toks(2, "nz") + [1, 0, 0, 0] + c.toks(4) + c.toks(4) + c.toks(4)
+        body += e
+        per.append(len(e))
+    return body + [0xFF] * 4, per
+
+
+def measure_list_writers(FB):
+    """bytes written by the hand-written list writers for 0..3 elements -> {fn name: [(n, total bytes, [element bytes])] or error}"""
+    out = {}
+    F = FB["wow_world_messages"]
+    for kind in ("done", "in_progress"):
+        name = "write_achievement_" + kind
+        rows = []
+        for n in range(0, 4):
+            c = _Counter()
+            body, per = _sentinel_body(kind, n, c)
+            v, err = _run(_mk(FB, _opaque_datetime()), W + "read_achievement_" + kind, [Stream(body)])
+            if err or not (isinstance(v, tuple) and v[0] == "Ok"):
+                rows = f"read_achievement_{kind}: {err or v}"
+                break
+            sink = Sink()
+            w, err = _run(_mk(FB, _opaque_datetime()), W + name, [v[1], sink])
+            if err:
+                rows = f"{name}: {err}"
+                break
+            rows.append((n, len(sink.out), per))
+        out[name] = rows
+    # addon array: elements are 8 constant bytes
+    rows = []
+    for n in range(0, 4):
+        elems = [("struct", "crate::world::shared::addon_tbc_wrath::Addon", {"addon_type": Tok(2000 + 8 * i, "any"), "uses_crc": Tok(2001 + 8 * i, "any"), "uses_diffent_public_key": True,
+                                                                        "unknown1": Wide([Tok(2002 + 8 * i + k, "any") for k in range(4)]), "unknown2": Tok(2007 + 8 * i, "any")}) for i in range(n)]
+        sink = Sink()
+        w, err = _run(Mini(FB, "wow_world_messages"), "crate::util::functions::shared::write_addon_array", [elems, sink])
+        if err:
+            rows = f"write_addon_array: {err}"
+            break
+        rows.append((n, len(sink.out), [8] * n))
+    out["write_addon_array"] = rows
+    return out
+
+
+def check_sentinel_arrays(ctx, FB):
+    """AchievementDoneArray / AchievementInProgressArray: elements until the 0xFFFFFFFF sentinel; decode -> encode identity"""
+    F = FB["wow_world_messages"]
+    cases = n_types = 0
+    for kind in ("done", "in_progress"):
+        rd, wr = F.fn(W + "read_achievement_" + kind), F.fn(W + "write_achievement_" + kind)
+        if rd is None or wr is None:
+            ctx.violate("builtin.siblings", f"anchor|achievement_{kind}", f"read_achievement_{kind} / write_achievement_{kind} not found (anchor disappeared)")
+            continue
+        n_types += 1
+        key = f"wow_world_messages::{W}achievement_{kind}"
+        for n in range(0, 5):
+            cases += 1
+            c = _Counter()
+            body, _per = _sentinel_body(kind, n, c)
+            st = Stream(body + c.toks(EXTRA))
+            v, err = _run(_mk(FB, _opaque_datetime()), W + "read_achievement_" + kind, [st])
+            if err or not (isinstance(v, tuple) and v[0] == "Ok") or st.pos != len(body) or len(v[1]) != n:
+                what = err or (f"consumes {st.pos} bytes and returns {len(v[1])} elements" if isinstance(v, tuple) and v[0] == "Ok" else repr(v))
+                ctx.violate("builtin.siblings", key + "|read", f"read_achievement_{kind} on a {len(body)}-byte encoding of {n} elements + sentinel: {what}", rd["file"], rd["line"])
+                break
+            sink = Sink()
+            w, err = _run(_mk(FB, _opaque_datetime()), W + "write_achievement_" + kind, [v[1], sink])
+            if err or not same_bytes(sink.out, body):
+                ctx.violate("builtin.siblings", key + "|roundtrip", f"write_achievement_{kind} of the {n} elements decoded from a {len(body)}-byte encoding gives {err or str(len(sink.out)) + ' bytes that differ from the input (elements, order or sentinel)'}", wr["file"], wr["line"])
+                break
+    return n_types, cases
 
 
 def run(ctx):
